@@ -2,7 +2,7 @@ SPECIFICATION Spec
 CONSTANTS
     Names = {"a", "aa", "A", "e_acute"}
     Gens = {"Unary", "UnaryVoid", "Producer", "ProducerWithHeader", "Exchange", "ExchangeWithHeader", "DynamicStreamWithHeader"}
-    Params = {"P0", "P1"}
+    Params = {"P1"}
     Results = {"Rint"}
     Outs = {"O1", "NIL"}
     Ins = {"I1"}
